@@ -135,6 +135,7 @@ func (x *Exec) mapUpdate(m *Map, k, v Val) {
 	if m == nil {
 		x.fail("nil-map-write", "")
 	}
+	x.forceKeys(m)
 	x.checkFrame(m.Epoch, "map")
 	for i := range m.Keys {
 		e := x.binop(token.EQL, m.Keys[i], k).(Bool)
@@ -159,6 +160,7 @@ func (x *Exec) mapDelete(m *Map, k Val) {
 	if m == nil {
 		return
 	}
+	x.forceKeys(m)
 	x.checkFrame(m.Epoch, "map")
 	for i := range m.Keys {
 		e := x.binop(token.EQL, m.Keys[i], k).(Bool)
@@ -184,6 +186,15 @@ func (x *Exec) lookup(fr *frame, in *ssa.Lookup) Val {
 		if ki, ok := k.(Int); ok {
 			k = x.subst(ki)
 		}
+		if len(m.Pend) > 0 {
+			if ks, ok := k.(Str); ok {
+				if cs, ok := ks.concrete(); ok {
+					x.decideKey(m, cs)
+				} else {
+					x.forceKeys(m)
+				}
+			}
+		}
 		for i := len(m.Keys) - 1; i >= 0; i-- {
 			e := x.binop(token.EQL, m.Keys[i], k).(Bool)
 			if e.T == "" {
@@ -194,7 +205,9 @@ func (x *Exec) lookup(fr *frame, in *ssa.Lookup) Val {
 				continue
 			}
 			res = x.ite(e, m.Vals[i], res)
-			found = x.or(e, found)
+			if in.CommaOk {
+				found = x.or(e, found)
+			}
 		}
 	}
 	if in.CommaOk {
